@@ -53,6 +53,39 @@ def check_scan(chk, rep0, repo, pre="", only=None):
         for bs in find_best_scans(w, li):
             scans.append(bs)
     scans = [b for b in scans if b.loop.kind in ("while", "for") and b.loop.loops]
+    if not scans:
+        # no running-minimum scan: if a label / conqueror is nevertheless recorded under `candidate < m` where m is never
+        # updated in the loop, the comparison is against the START value, not the best so far - the violation itself
+        hit = False
+        for li in w.loops.values():
+            if li.kind not in ("while", "for") or not li.loops:
+                continue
+            for n2, (i2, e2) in li.carried.items():
+                t = e2
+                while t[0] == "sel":
+                    c = t[1]
+                    if c[0] == "cmp" and c[1] in ("<", "<="):
+                        def varying(x):
+                            from ..ir import subterms
+                            for u in subterms(x):
+                                if u[0] == "phi" and (u[1] == li.lid or (u[1] in w.loops and li.lid in w.loops[u[1]].loops)):
+                                    if not (u[1] == li.lid and u[2] in li.carried and li.carried[u[2]][1] == u):
+                                        return True
+                                if u[0] in ("iter", "iterproj") and u[2] == li.lid:
+                                    return True
+                            return False
+                        sides = [c[2], c[3]]
+                        frozen = [x for x in sides if not varying(x)]
+                        if len(frozen) == 1 and varying([y for y in sides if y is not frozen[0]][0]) and not hit \
+                                and (t[2] == ("phi", li.lid, n2) or t[3] == ("phi", li.lid, n2)):
+                            hit = True
+                            rep.fn("SCAN-running", w.entry, "candidates are compared with the smallest candidate seen so far", False,
+                                   f"'{n2}' is updated under '{show(c)[:80]}', whose reference '{show(frozen[0])[:60]}' never changes "
+                                   "in the scan: every candidate below the FIRST one wins and the last of them is kept, not the "
+                                   "minimum", line=li.line)
+                    t = t[2] if t[3] == ("phi", li.lid, n2) else t[3]
+        if hit:
+            return
     if len(scans) != 1:
         raise AnalysisError(f"SupervisedOPF.predict: expected one best-so-far scan, found {len(scans)}")
     bs = scans[0]
